@@ -8,6 +8,8 @@ from specs.xsm import Node, Trans, Ev
 BI = "xstate_statemachine.base_interpreter:BaseInterpreter."
 SI = "xstate_statemachine.sync_interpreter:SyncInterpreter."
 A = "self._active_state_nodes"
+# bookkeeping of timers / delayed sends / child actors: written whenever states are exited or entered or actions run
+TASKS = ["self._after_events", "self._after_threads", "self._pending_send_cancels", "self._scheduled_sends", "self._actors"]
 
 
 def register(w):
@@ -15,7 +17,7 @@ def register(w):
     def _(c):
         c.bounded_only = True
         c.param("transition", Trans).param("event", Ev)
-        c.mod(A, "self._history", "self.context", "self.status", "self.output", "self.error", "self._action_depth")
+        c.mod(A, "self._history", "self.context", "self.status", "self.output", "self.error", "self._action_depth", *TASKS)
         c.req(f"legal({A})", "transition != None and transition.source in " + A)
         c.ens(f"legal({A})", label="legal-after-transition")
         c.may_raise("Exception", ensures=[f"set_eq({A}, old({A}))"])
@@ -25,7 +27,7 @@ def register(w):
         c.bounded_only = True
         c.param("event", Ev)
         c.mod(A, "self._history", "self.context", "self.status", "self.output", "self.error", "self._action_depth",
-              "self._event_queue", "self.g_accepted")
+              "self._event_queue", "self.g_accepted", *TASKS)
         c.req(f"legal({A})")
         c.ens(f"legal({A})", label="legal-after-event")
         # P-only clause (ghost state): actions reach the queue only through send(), which appends while processing
@@ -43,6 +45,7 @@ def register(w):
     def _(c):
         c.trusted = "assumed frame: touches timer/task bookkeeping only (fields outside the modelled interpreter state)"
         c.param("state", Node)
+        c.mod("self._after_events", "self._after_threads")
 
     @w.contract(SI + "_execute_actions", also=["xstate_statemachine.interpreter:Interpreter._execute_actions"], props=["C07"])
     def _(c):
@@ -50,14 +53,14 @@ def register(w):
                      "and the event queue (A-user: never _active_state_nodes or _history); a user action that raises is contained; "
                      "only configuration errors (an Exception subclass) escape")
         c.param("actions", ListSort(Ev.__class__ and __import__('specs.xsm', fromlist=['Act']).Act)).param("event", Ev)
-        c.mod("self.context", "self.status", "self.output", "self.error", "self._action_depth")
+        c.mod("self.context", "self.status", "self.output", "self.error", "self._action_depth", *TASKS)
         c.may_raise("Exception")
 
     @w.contract(BI + "_exit_states", also=[SI + "_exit_states"], props=["C01", "C03"])
     def _(c):
         c.param("states_to_exit", ListSort(Node)).param("event", Ev)
         c.defaults = {"event": "None"}
-        c.mod(A, "self._history", "self.context", "self._action_depth", "self.status", "self.output", "self.error")
+        c.mod(A, "self._history", "self.context", "self._action_depth", "self.status", "self.output", "self.error", *TASKS)
         c.req("forall[int](lambda i: implies(0 <= i and i < len(states_to_exit), states_to_exit[i] != None))")
         c.ens(f"forall[Node](lambda n: (n in {A}) == (n in old({A}) and not (n in states_to_exit)))", label="removes-exactly-the-listed-states")
         c.may_raise("Exception", ensures=[f"forall[Node](lambda n: implies(n in {A}, n in old({A})))"])
